@@ -44,22 +44,23 @@ type foundViolation struct {
 }
 
 type summary struct {
-	Property     string          `json:"property"`
-	Worker       int             `json:"worker"`
-	Runs         int             `json:"runs"`
-	Nontrivial   int             `json:"nontrivial"`
-	Sigs         []uint64        `json:"sigs"`
-	Faults       map[string]int  `json:"faults"`
-	Probes       map[string]int  `json:"probes"`
-	YieldHits    map[string]int  `json:"yield_hits"`
-	SimNS        int64           `json:"sim_ns"`
-	Steps        int64           `json:"steps"`
-	Inconclusive int             `json:"inconclusive"`
-	Samples      []any           `json:"samples"`
-	FirstSeed    uint64          `json:"first_seed"`
-	LastSeed     uint64          `json:"last_seed"`
-	WallS        float64         `json:"wall_s"`
-	Violation    *foundViolation `json:"violation,omitempty"`
+	Property     string            `json:"property"`
+	Worker       int               `json:"worker"`
+	Runs         int               `json:"runs"`
+	Nontrivial   int               `json:"nontrivial"`
+	Sigs         []uint64          `json:"sigs"`
+	Faults       map[string]int    `json:"faults"`
+	Probes       map[string]int    `json:"probes"`
+	YieldHits    map[string]int    `json:"yield_hits"`
+	SimNS        int64             `json:"sim_ns"`
+	SimS         float64           `json:"sim_s"`
+	Steps        int64             `json:"steps"`
+	Inconclusive int               `json:"inconclusive"`
+	Samples      []any             `json:"samples"`
+	FirstSeed    uint64            `json:"first_seed"`
+	LastSeed     uint64            `json:"last_seed"`
+	WallS        float64           `json:"wall_s"`
+	Violation    *foundViolation   `json:"violation,omitempty"`
 	Known        []*foundViolation `json:"known,omitempty"`
 }
 
@@ -632,6 +633,7 @@ func checkProperty(prop, tier string) int {
 				agg.YieldHits[k] += v
 			}
 			agg.SimNS += s.SimNS
+			agg.SimS += s.SimS
 			agg.Steps += s.Steps
 			agg.Inconclusive += s.Inconclusive
 			for _, sg := range s.Sigs {
@@ -776,7 +778,7 @@ func writeEvidence(prop, tier string, seed uint64, agg *summary, info map[string
 		"samples":             samples,
 		"runs_per_hour":       int64(runsPerHour),
 		"seeds":               fmt.Sprintf("VERIF_SEED=%d: worker w of %d runs seeds %d+w+k*%d", seed, nw, seed*1000003, nw),
-		"sim_seconds_covered": float64(agg.SimNS) / 1e9,
+		"sim_seconds_covered": agg.SimS,
 		"scheduler_steps":     agg.Steps,
 		"faults_fired":        agg.Faults,
 		"yield_hits":          agg.YieldHits,
